@@ -602,7 +602,8 @@ where
         }
 
         let shift = self.significant_bits() - divisor.significant_bits();
-        let mut divisor: Bvf<I, N> = divisor.try_into().expect("divisor should fit in Self");
+        let divisor = divisor.copy_range(0..divisor.significant_bits());
+        let mut divisor: Bvf<I, N> = (&divisor).try_into().expect("divisor should fit in Self");
         divisor.resize(self.length, Bit::Zero);
         divisor <<= shift;
 
